@@ -31,6 +31,8 @@ for _m, _k in {
 for _m, _k in {"acquire": "acquire", "release": "release", "locked": "read"}.items():
     _METHOD_EFFECT[("Semaphore", _m)] = _k
     _METHOD_EFFECT[("Lock", _m)] = _k
+# private: since Python 3.11 it takes a slot on behalf of the next waiter and wakes it (value -= 1) without anybody having released one
+_METHOD_EFFECT[("Semaphore", "_wake_up_next")] = "wake"
 for _m, _k in {"set": "set", "clear": "clear", "is_set": "read", "wait": "wait"}.items():
     _METHOD_EFFECT[("Event", _m)] = _k
 for _m, _k in {"cancel": "cancel", "done": "read", "cancelled": "read", "add_done_callback": "add_done_callback", "result": "read", "exception": "read"}.items():
@@ -331,6 +333,8 @@ class Effects:
                             out.append(Effect(n, p2, kind, ck2, fn.attr))
                 elif ck is not None:
                     kind = _METHOD_EFFECT.get((ck, fn.attr))
+                    if kind is None and ck == "Semaphore":
+                        kind = "sem-other"  # a method of the semaphore the rules know nothing about
                     if kind in ("insert", "remove", "clear", "reorder") and ck in ("dict", "set", "list") and P.is_copy(fn.value):
                         kind = None  # edits a private copy, not the container it was copied from
                     if kind is not None and path is not None:
